@@ -1,5 +1,5 @@
 (* Props/C12.v -- property C12: every scalar value survives serialization and deserialization unchanged. *)
-From SS Require Import Model.SerScalar Proofs.SerScalar.
+From SS Require Import Model.SerScalar Proofs.SerScalar Proofs.SerScalarRead.
 Local Open Scope N_scope.
 
 (* Double-quoted style: for EVERY string (any scalar values, any length) the escaper's output, read
@@ -88,3 +88,20 @@ Check C12_example :
   /\ is_plain_value_safe [45; 45; 45] false false = false
   /\ is_plain_value_safe [97; 32; 98] false false = true.
 Print Assumptions C12_example.
+
+(* ... and also when NO type is asked for: a text that the value-position test lets through as a plain scalar is,
+   for the reader's scalar interpretation (deserialize_any), not null, not a boolean, not an integer in any radix
+   (digit separators, signs and both letter cases of the radix prefix included) and not a float (Rust's float
+   grammar and the YAML special words): it comes back as the very same string.  The reader's acceptance sets are
+   contained in the serializer's ambiguity test -- for ALL strings.  (yaml_12 output is meant for readers with
+   strict booleans; the hypothesis says so.) *)
+Theorem C12_plain_reads_back_untyped : forall c s y12 flow,
+  (y12 = true -> strict_booleans c = true) ->
+  is_plain_value_safe s y12 flow = true ->
+  deserialize_any_scalar c (mkScalar s Plain TAG_None) = RStr s.
+Proof. exact plain_value_reads_back_untyped. Qed.
+Check C12_plain_reads_back_untyped : forall c s y12 flow,
+  (y12 = true -> strict_booleans c = true) ->
+  is_plain_value_safe s y12 flow = true ->
+  deserialize_any_scalar c (mkScalar s Plain TAG_None) = RStr s.
+Print Assumptions C12_plain_reads_back_untyped.
